@@ -51,8 +51,12 @@ def build_frames(at, cm, fields, vmaps, k=1):
     zero_j = jsorted.index(real[len(real) // 2])      # "swap0": id 0 sits on an interface end point
     for t, dz in enumerate(fields):
         vm = vmaps[t % len(vmaps)]
+        vorder = None
+        if isinstance(vm, dict):
+            # {"vmap": ids, "vorder": order in which the vertices are stored} - the tracker scans candidates in storage order
+            vm, vorder = vm["vmap"], vm.get("vorder")
         vm = ["swap", 0, zero_j] if vm == ["swap0"] else vm
-        spec.append({"at": at, "k": k, "cmap": cm, "post": SC.displace_post(at, dz), "time": float(t), "lab": {"vmap": vm}})
+        spec.append({"at": at, "k": k, "cmap": cm, "post": SC.displace_post(at, dz), "time": float(t), "lab": {"vmap": vm, "vorder": vorder}})
     return spec
 
 
@@ -158,7 +162,12 @@ def run_series(at, cm, fields, vmaps, use_cm, guess_spec, viol, tags):
 class LatticeFields(ProductSystem):
     chunk = 16
 
-    def __init__(self, base, cells, deltas, bound, vmaps):
+    def __init__(self, base, cells, deltas, bound, vmaps, vmaps0=(["id"],), mob=("m", 0.05, 0.02), theta=0.2, bonds=None):
+        # bonds = list of magnitudes (fractions of the binding bound): instead of 8 compass directions of one magnitude every
+        # junction may move towards / away from each of the other three, by each magnitude (neighbours closing in on a junction
+        # that itself moves away are what makes several successors share one search ring)
+        self.bonds = bonds
+        self.vmaps0 = [v if isinstance(v, dict) else list(v) for v in vmaps0]
         self.name = "lattice-fields:%s" % base
         self.base, self.cells = base, cells
         self.bound = bound
@@ -166,9 +175,10 @@ class LatticeFields(ProductSystem):
         self.vmaps = vmaps
         at = tissue_for(base, cells)
         self.at = at
-        self.cm = SC.make_cmap(["m", 0.05, 0.02], 0.2, (0, 0), 1.0, SC.extent_of(bases.get(base)))
+        self.cm = SC.make_cmap(list(mob), theta, (0, 0), 1.0, SC.extent_of(bases.get(base)))
         real = real_junctions(at)
         pos = junction_positions(at, self.cm)
+        self.pos = pos
         # four mutually neighbouring junctions: the one nearest to the centroid and its three nearest neighbours
         cen = sum(pos[j] for j in real) / len(real)
         j0 = min(real, key=lambda j: abs(pos[j] - cen))
@@ -180,10 +190,15 @@ class LatticeFields(ProductSystem):
         self.binding = "spacing" if 0.5 * self.dmin < 0.08 * ext else "extent"
 
     def bases(self):
-        return [[di, vi] for di in range(len(self.deltas)) for vi in range(len(self.vmaps))]
+        # the numbering of BOTH frames is an environment choice (the tracker scans candidates in storage order)
+        return [[di, vi, v0] for di in range(len(self.deltas)) for vi in range(len(self.vmaps)) for v0 in range(len(self.vmaps0))]
 
     def axes(self, base):
-        return {"j0": list(range(9)), "j1": list(range(9)), "j2": list(range(9)), "j3": list(range(9))}
+        if not self.bonds:
+            return {"j0": list(range(9)), "j1": list(range(9)), "j2": list(range(9)), "j3": list(range(9))}
+        # the central junction moves along any of the six bond directions; its three neighbours move towards or away from it
+        n0, n1 = 1 + 6 * len(self.bonds), 1 + 2 * len(self.bonds)
+        return {"j0": list(range(n0)), "j1": list(range(n1)), "j2": list(range(n1)), "j3": list(range(n1))}
 
     def eval_config(self, base, cfg):
         delta = self.deltas[base[0]] * self.lim
@@ -191,15 +206,30 @@ class LatticeFields(ProductSystem):
         dz = {}
         for n, j in enumerate(self.four):
             v = cfg["j%d" % n]
-            if v:
+            if v and not self.bonds:
                 dz[j] = delta * cmath.exp(1j * math.pi * (v - 1) / 4)
+            elif v:
+                if n == 0:
+                    others = [x for x in self.four if x != j]
+                    mag = self.bonds[(v - 1) // 6] * self.lim
+                    k_ = (v - 1) % 6
+                    u = self.pos[others[k_ // 2]] - self.pos[j]
+                else:
+                    mag = self.bonds[(v - 1) // 2] * self.lim
+                    k_ = (v - 1) % 2
+                    u = self.pos[self.four[0]] - self.pos[j]
+                dz[j] = mag * u / abs(u) * (1 if k_ % 2 == 0 else -1)
         viol, tags = [], []
-        run_series(self.at, self.cm, [{}, dz], [["id"], vm], False, ["none"], viol, tags)
-        if vm != ["id"]:
+        vm0 = self.vmaps0[base[2]]
+        run_series(self.at, self.cm, [{}, dz], [vm0, vm], False, ["none"], viol, tags)
+        if vm != ["id"] or vm0 != ["id"]:
             tags.append("renumbered")
         sig = "".join(str(cfg["j%d" % n]) for n in range(4))
         tags.append("binding:" + self.binding)
-        return {"viol": viol, "tags": sorted(set(tags)), "cls": "%s/%s/%s" % (base[0], base[1], sig), "nontrivial": bool(dz)}
+        return {"viol": viol, "tags": sorted(set(tags)), "cls": "%s/%s/%s/%s" % (base[0], base[1], base[2], sig), "nontrivial": bool(dz)}
+
+
+STORED_REV = {"vmap": ["rev"], "vorder": "id"}        # ids reversed AND stored in ascending id order: every scan of the dict runs backwards
 
 
 MOTIONS = ["rest", "flow_x", "flow_d", "shear", "stretch", "rotate", "breathe", "random_like"]
@@ -275,9 +305,11 @@ def build(tier, seed):
     from checks import c07
     small = c07.first_connected("v5x5", 3)
     if tier == "quick":
-        return [LatticeFields("v5x5", small, [0.95, 0.4], 4, [["id"]]),
-                LatticeFields("v5x4", None, [0.95, 0.4], 2, [["rev"]]),
+        return [LatticeFields("v5x5", small, [0.95, 0.4], 4, [["id"], ["rev"]], [["id"], ["rev"]]),
+                LatticeFields("v5x4", None, [0.95], 4, [["id"], STORED_REV], [["id"], STORED_REV]),
+                # a tissue many junction spacings wide: several successors fall inside the widest search ring of one junction
+                LatticeFields("hex6x4", None, [1.0], 4, [["id"], STORED_REV], [["id"], STORED_REV], mob=["id"], theta=0.0, bonds=[0.85, 0.65]),
                 Series([["v5x5", small], ["v5x4", None], ["v4x4p%d" % (seed + 1), None]], 2)]
-    return [LatticeFields("v5x5", small, [0.95, 0.4], 4, [["id"], ["rev"]]),
+    return [LatticeFields("v5x5", small, [0.95, 0.4], 4, [["id"], ["rev"], ["rot", 5]], [["id"], ["rev"], ["rot", 3]]),
             LatticeFields("v5x4", None, [0.95, 0.4], 4, [["gap", 3, 7]]),
             Series([["v5x5", small], ["v5x4", None], ["v5x5", None], ["v4x4p%d" % (seed + 1), None]], 3)]
